@@ -4,6 +4,8 @@
 package simfs
 
 import (
+	"simrt"
+
 	"io/fs"
 	"os"
 	"path/filepath"
@@ -18,6 +20,15 @@ type node struct {
 	dir  bool
 	data []byte
 	link string
+}
+
+// fsPoint: a read-side call of the server is a place where a real goroutine blocks in the kernel
+// and others run.  In runs whose schedule sets the "fsyield" knob every such call is a scheduling
+// point (taken before the disk lock), so windows that straddle a system call can be explored.
+func fsPoint(op string) {
+	if simrt.Knob("fsyield", 0) == 1 {
+		simrt.Yield("fs:" + op)
+	}
 }
 
 // Fault is one planned read-side fault.
@@ -292,6 +303,9 @@ func base(p string) string { return p[strings.LastIndex(p, "/")+1:] }
 
 // ReadFile replaces ioutil.ReadFile / os.ReadFile.
 func ReadFile(p string) ([]byte, error) {
+	if On {
+		fsPoint("ReadFile")
+	}
 	if !On {
 		return os.ReadFile(p)
 	}
@@ -333,6 +347,9 @@ func ReadFile(p string) ([]byte, error) {
 
 // ReadDir replaces ioutil.ReadDir (which sorts by name; Lstat semantics for entries).
 func ReadDir(p string) ([]os.FileInfo, error) {
+	if On {
+		fsPoint("ReadDir")
+	}
 	if !On {
 		ents, err := os.ReadDir(p)
 		if err != nil {
@@ -379,6 +396,9 @@ func ReadDir(p string) ([]os.FileInfo, error) {
 
 // Stat replaces os.Stat (follows links).
 func Stat(p string) (os.FileInfo, error) {
+	if On {
+		fsPoint("Stat")
+	}
 	if !On {
 		return os.Stat(p)
 	}
@@ -399,6 +419,9 @@ func Stat(p string) (os.FileInfo, error) {
 
 // Lstat replaces os.Lstat (does not follow the final link).
 func Lstat(p string) (os.FileInfo, error) {
+	if On {
+		fsPoint("Lstat")
+	}
 	if !On {
 		return os.Lstat(p)
 	}
@@ -415,6 +438,9 @@ func Lstat(p string) (os.FileInfo, error) {
 
 // Readlink replaces os.Readlink.
 func Readlink(p string) (string, error) {
+	if On {
+		fsPoint("Readlink")
+	}
 	if !On {
 		return os.Readlink(p)
 	}
@@ -438,6 +464,9 @@ func (d dirEntry) Info() (fs.FileInfo, error) { return d.info, nil }
 
 // ReadDirEntries replaces os.ReadDir.
 func ReadDirEntries(p string) ([]os.DirEntry, error) {
+	if On {
+		fsPoint("ReadDir")
+	}
 	if !On {
 		return os.ReadDir(p)
 	}
